@@ -341,6 +341,19 @@ def gen_run(seed, params):
     domain = rng.choice(params.get('domains', list(DOMAINS)))
     model = RefQuad(DOMAINS[domain][2])
     n_pieces = {'UnitSquare': 4, 'PiSquare': 4, 'LShape': 8}[domain]
+    if rng.random() < params.get('p_blowup', 1.0 / 1500):
+        # a very large mesh (tens of thousands of leaves), then targeting:
+        # state whose size matters (bounded caches, recursion, ...)
+        k = 7 if domain == 'LShape' else 8
+        ops = [{'op': 'uniform', 'order_seed': rng.randrange(1 << 30)}
+               for _ in range(k)]
+        for _ in range(2):
+            ops.append({'op': 'target', 'piece': rng.randrange(n_pieces),
+                        'l': rng.choice([9, 10]), 'k': rng.randrange(1 << 10),
+                        'flip': rng.random() < 0.5,
+                        'form': rng.choice(['tuple', 'list', 'array']),
+                        'order_seed': rng.randrange(1 << 30)})
+        return {'domain': domain, 'ops': ops, 'blowup': True}
     cap = params.get('leaf_cap', 300)
     r = rng.random()
     n_ops = rng.randint(1, 5) if r < 0.6 else rng.randint(6, params.get(
